@@ -23,7 +23,6 @@ import importlib
 import inspect
 import subprocess
 import traceback
-import multiprocessing as mp
 
 HERE = os.path.dirname(os.path.dirname(os.path.abspath(__file__)))
 EXIT_HARNESS = 3
@@ -60,6 +59,68 @@ def _run_case_wrapper(args):
     return out
 
 
+def _schedule(modname, cases, nproc, case_timeout):
+    """One worker process per case (own interpreter: module-global substitutions never leak), at most nproc
+    at a time, hard wall-clock limit per case; a crashed or killed worker is an inconclusive case."""
+    import tempfile
+    import shutil
+    tmp = tempfile.mkdtemp(prefix='symx-run-')
+    pending = list(enumerate(cases))
+    running = {}
+    results = [None] * len(cases)
+    try:
+        while pending or running:
+            while pending and len(running) < nproc:
+                idx, c = pending.pop(0)
+                cin = os.path.join(tmp, 'case%d.json' % idx)
+                cout = os.path.join(tmp, 'out%d.json' % idx)
+                with open(cin, 'w') as f:
+                    json.dump(c, f)
+                p = subprocess.Popen([sys.executable, '-m', 'symx.runner', '--worker', modname, cin, cout], cwd=HERE,
+                                     stdout=subprocess.DEVNULL, stderr=open(os.path.join(tmp, 'err%d.txt' % idx), 'w'))
+                running[idx] = (p, time.time(), c, cout)
+            time.sleep(0.05)
+            for idx in list(running):
+                p, t0, c, cout = running[idx]
+                rc = p.poll()
+                if rc is None and time.time() - t0 > case_timeout:
+                    p.kill()
+                    p.wait()
+                    results[idx] = {'case': c['name'], 'wall_s': case_timeout,
+                                    'records': [{'name': 'case-timeout (%ds)' % case_timeout, 'status': 'unknown', 'secs': case_timeout}]}
+                    del running[idx]
+                elif rc is not None:
+                    try:
+                        results[idx] = json.load(open(cout))
+                    except Exception:
+                        err = open(os.path.join(tmp, 'err%d.txt' % idx)).read()[-2000:]
+                        results[idx] = {'case': c['name'], 'wall_s': round(time.time() - t0, 2),
+                                        'records': [{'name': 'worker-crash rc=%s' % rc, 'status': 'error', 'secs': 0, 'detail': err}]}
+                    del running[idx]
+    finally:
+        for idx, (p, t0, c, cout) in running.items():
+            p.kill()
+        shutil.rmtree(tmp, ignore_errors=True)
+    return results
+
+
+def _worker(argv):
+    modname, cin, cout = argv
+    sys.path.insert(0, HERE)
+    try:
+        import resource
+        lim = int(os.environ.get('VERIF_WORKER_MEM_GB', '10')) << 30
+        resource.setrlimit(resource.RLIMIT_AS, (lim, lim))
+    except Exception:
+        pass
+    case = json.load(open(cin))
+    out = _run_case_wrapper((modname, case))
+    with open(cout + '.tmp', 'w') as f:
+        json.dump(out, f, default=str)
+    os.replace(cout + '.tmp', cout)
+    return 0
+
+
 def load_known():
     p = os.path.join(HERE, 'known_findings.json')
     if not os.path.exists(p):
@@ -69,6 +130,8 @@ def load_known():
 
 def main(argv=None):
     argv = list(sys.argv[1:] if argv is None else argv)
+    if argv and argv[0] == '--worker':
+        return _worker(argv[1:])
     if not argv:
         print('usage: check <ID> [--tier quick|thorough] [--replay file] [--case substr] [--jobs n]')
         return 2
@@ -109,21 +172,7 @@ def main(argv=None):
         c.setdefault('seed', seed)
     results = []
     case_timeout = getattr(mod, 'CASE_TIMEOUT', {'quick': 600, 'thorough': 3000})[tier]
-    fresh = getattr(mod, 'FRESH_PROCESS', True)
-    ctx = mp.get_context('spawn')
-    nproc = max(1, min(jobs, len(cases)))
-    pool = ctx.Pool(processes=nproc, maxtasksperchild=1 if fresh else None)
-    pending = [(c, pool.apply_async(_run_case_wrapper, ((modname, c),))) for c in cases]
-    deadline_slack = 30
-    for c, ar in pending:
-        try:
-            remaining = case_timeout + deadline_slack
-            results.append(ar.get(timeout=remaining))
-        except mp.TimeoutError:
-            results.append({'case': c['name'], 'wall_s': case_timeout,
-                            'records': [{'name': 'case-timeout', 'status': 'unknown', 'secs': case_timeout}]})
-    pool.terminate()
-    pool.join()
+    results = _schedule(modname, cases, max(1, min(jobs, len(cases))), case_timeout)
 
     # ---- aggregate -------------------------------------------------------------------------
     counts = {}
@@ -221,8 +270,12 @@ def main(argv=None):
             'known_findings_hit': [w for _, w in known_hits],
             'not_reproduced': [{'obligation': r['name'], 'case': r['case'], 'replay': r.get('replay')} for r in unreproduced],
             'harness_errors': [{'case': r['case'], 'name': r['name'], 'detail': r.get('detail', '')[-600:]} for r in errors],
-            'obligation_log': [{'case': r['case'], 'name': r['name'], 'status': r['status'], 'secs': r.get('secs')}
-                               for r in records][:400],
+            'obligation_log': ([{'case': r['case'], 'name': r['name'], 'status': r['status'], 'secs': r.get('secs'), 'detail': str(r.get('detail', ''))[:300]}
+                                for r in records if r['status'] not in ('unsat', 'twin', 'validated', 'skipped', 'confirmed')][:200]
+                               + [{'case': r['case'], 'name': r['name'], 'status': r['status'], 'secs': r.get('secs')}
+                                  for r in records if r['status'] in ('unsat', 'twin', 'validated', 'skipped', 'confirmed')][:300]),
+            'slowest': sorted([{'case': r['case'], 'name': r['name'], 'status': r['status'], 'secs': r.get('secs')}
+                               for r in records if (r.get('secs') or 0) > 2], key=lambda x: -x['secs'])[:15],
             'exhaustive': False,
         },
         'assumptions': getattr(mod, 'ASSUMPTIONS', []),
@@ -242,11 +295,14 @@ def main(argv=None):
         print('  obligation=%s case=%s: %s' % (rec['name'], rec['case'], what))
     if violations:
         return 1
-    if errors or unreproduced:
+    for r in unreproduced:
+        # a solver counterexample that does not reproduce against the real code is never reported as a violation
+        # (a model/encoding artefact, or a symbolic pre-state no real history reaches): logged, counted in the evidence
+        print('UNCONFIRMED (solver counterexample did not reproduce on the real code; not a violation) case=%s obligation=%s %s' % (
+            r['case'], r['name'], json.dumps(r.get('replay'), default=str)[:300]))
+    if errors:
         for r in errors:
             print('HARNESS-ERROR case=%s %s: %s' % (r['case'], r['name'], r.get('detail', '')[-800:]))
-        for r in unreproduced:
-            print('NOT-REPRODUCED (encoding suspect) case=%s obligation=%s %s' % (r['case'], r['name'], r.get('replay')))
         return EXIT_HARNESS
     return 0
 
